@@ -111,12 +111,12 @@ func c20Sig(name string, before, after []byte) string {
 		return "reopen-suffrage-proof"
 	case strings.Contains(name, "BlockMap"):
 		return "reopen-blockmap"
+	case strings.Contains(name, "Operation"):
+		return "reopen-operation"
 	case strings.Contains(name, "State"):
 		return "reopen-state"
 	case strings.Contains(name, "Policy"):
 		return "reopen-policy"
-	case strings.Contains(name, "Operation"):
-		return "reopen-operation"
 	default:
 		return "reopen-other"
 	}
